@@ -379,6 +379,22 @@ func (ps *PathSum) load(s *psState, addr string, f *psFrame, t types.Type) strin
 		}
 		// zero-initialised locals, and never-written fields of an object allocated on this path (composite literal)
 		freshField := strings.HasPrefix(loc, "complit") && strings.Count(loc, ".") == 1 && !strings.Contains(loc, "[")
+		if !freshField && strings.Count(loc, ".") == 1 && !strings.Contains(loc, "[") && !strings.Contains(loc, "(") {
+			// a field of a local struct variable that was initialised field by field (never assigned as a whole)
+			base := loc[:strings.Index(loc, ".")]
+			if strings.Contains(base, "#") {
+				_, whole := s.cells["&"+base]
+				_, copied := s.cells["&structof:"+base]
+				someField := false
+				for k := range s.cells {
+					if strings.HasPrefix(k, "&"+base+".") {
+						someField = true
+						break
+					}
+				}
+				freshField = !whole && !copied && someField
+			}
+		}
 		if strings.Contains(loc, "#") && (!strings.Contains(loc, ".") || freshField) && !strings.Contains(loc, "[") {
 			switch u := t.Underlying().(type) {
 			case *types.Basic:
